@@ -355,6 +355,14 @@ def thread_emissions(case, t, counter):
                 r = render_value(op["f"], op["v"])
                 if op["f"] in cs["fields"] and r is not None:
                     sp["groups"].append([(op["f"], r)])
+        elif o == "race":
+            # two threads record one field each on the innermost open span at the same time: BOTH are there afterwards
+            if stack:
+                sp = stack[-1]
+                cs = case["callsites"][sp["cs"]]
+                for side in ("a", "b"):
+                    if op[side]["f"] in cs["fields"]:
+                        sp["groups"].append([(op[side]["f"], op[side]["v"])])
         elif o == "event":
             sc, _ = scope_of(op.get("parent"))
             out.append(build_event(case, t, opi, op["cs"], op["vals"], sc, True, counter, op.get("parent") is not None, scope_of(None)[0]))
@@ -943,6 +951,32 @@ def gen_lifecycle_cases(rng):
     return cases
 
 
+def gen_race_cases(rng, n):
+    """two threads record different fields on ONE span at overlapping times (rendezvousing Debug impls), then records are
+    written inside that span: every recorded field must be named.  Text formats (JSON's stored fields are C14's)."""
+    cases = []
+    for i in range(n):
+        c = gen_case(rng, 0, "content")
+        c["kind"] = "race"
+        c["format"] = ["full", "compact", "pretty"][(i + rng.randrange(3)) % 3]
+        c["opts"]["ansi"] = False
+        cb = CaseBuilder(rng)
+        cb.callsites = c["callsites"]
+        cb.index = {json.dumps([x["kind"], x["name"], x["target"], x["level"], x["fields"], x["file"], x["line"]]): k for k, x in enumerate(cb.callsites)}
+        names = rng.sample(FIELD_NAMES, 3)
+        sc = cb.cs("span", rng.choice(SPAN_NAMES), rng.choice(TARGETS), rng.randint(1, 5), names)
+        ev = cb.cs("event", "event e0", "app", 3, ["seq", "message"])
+        fa, fb = rng.sample(names, 2)
+        pre = [{"op": "enter", "cs": sc, "vals": [gen_value(rng, names[0]) if rng.random() < 0.5 else {"none": 1}, {"none": 1}, {"none": 1}], "parent": None}]
+        if rng.random() < 0.5:
+            pre.append({"op": "record", "f": names[0], "v": {"i": rng.randint(0, 9)}})
+        pre += [{"op": "race", "a": {"f": fa, "v": rng.choice(RAWS)}, "b": {"f": fb, "v": rng.choice(["B", "Other(2)", "late"])}, "wait_ms": 250},
+                {"op": "event", "cs": ev, "vals": [{"i": 195001}, {"d": "after the race"}], "parent": None}]
+        c["threads"][0] = pre + c["threads"][0] + [{"op": "exit"}]
+        cases.append(c)
+    return cases
+
+
 def add_sink_kinds(rng, c):
     """closure-backed and Mutex-backed leaves.  A Mutex leaf: at most once in the expression (a second lock of the same
     Mutex inside one Tee would deadlock -- user error), no direct ops (they use a second copy of the writer)."""
@@ -1160,6 +1194,12 @@ def model_ops(case, t):
                 r = render_value(op["f"], op["v"])
                 if op["f"] in case["callsites"][sp["cs"]]["fields"] and r is not None:
                     sp["groups"].append([(op["f"], r)])
+        elif o == "race":
+            if stack:
+                sp = stack[-1]
+                for side in ("a", "b"):
+                    if op[side]["f"] in case["callsites"][sp["cs"]]["fields"]:
+                        sp["groups"].append([(op[side]["f"], op[side]["v"])])
         elif o == "event":
             sc, _ = scope_of(op.get("parent"))
             par = op.get("parent")
@@ -1561,6 +1601,7 @@ def run(ctx):
         for _ in range(scale):
             cases += gen_teefault_cases(rng)
         cases += gen_lifecycle_cases(rng)
+        cases += gen_race_cases(rng, 6 * scale)
         for _ in range(6 * scale):
             a, b = gen_testwriter_twins(rng)
             cases += [a, b]
@@ -1616,6 +1657,8 @@ def run(ctx):
         for t, items in enumerate(exp_threads):
             want_caught += check_thread(rep, c, case_min, t, items, by_thread.get(t, []), f9_counter)
         check_mutex_exclusion(rep, c, case_min, o["log"])
+        for ov, to in o.get("races", []):
+            rep.count("record-race:" + ("overlapped" if ov else "second-call-blocked" if to else "no-gate"))
         if sorted(o.get("caught", [])) != sorted(want_caught):
             rep.tie("harness:caught-panics", False, "case %d: caught %s, expected %s" % (cid, sorted(o.get("caught", [])), sorted(want_caught)), {"case": case_min})
         aborted_any = any((not isinstance(e, tuple)) and e.top and e.status == "panic" for items in exp_threads for e in items)
